@@ -87,7 +87,7 @@ func init() {
 			r := env.Rand
 			var res []core.Case
 			methods := []string{"MUS", "MUSDeletion", "MUSInsertion", "MUSMaxSat"}
-			for i := 0; i < env.Pick(800, 10000); i++ {
+			for i := 0; i < env.Pick(2400, 12000); i++ {
 				n, clauses := unsatBiasedCNF(r, 5)
 				if i%3 == 0 { // larger cores: 3-SAT above the threshold with implications and a fact
 					n = 6 + r.Intn(2)
